@@ -53,6 +53,8 @@ impl FromStr for CardPair {
         }
 
         match (Card::from_str(&value[0..2]), Card::from_str(&value[2..4])) {
+            // hole cards are two different cards
+            (Ok(l), Ok(r)) if l == r => Err(Self::Err::InvalidCardStr((&value[2..4]).to_string())),
             (Ok(l), Ok(r)) => Ok(CardPair::new(l, r)),
             (Err(_), _) => Err(Self::Err::InvalidCardStr((&value[0..2]).to_string())),
             (Ok(_), Err(_)) => Err(Self::Err::InvalidCardStr((&value[2..4]).to_string())),
